@@ -56,6 +56,15 @@ type c14Case struct {
 	Annos  [][]c14Param `json:"annos"`
 	Policy c14Policy    `json:"policy"`
 	Text   string       `json:"text,omitempty"` // optional: the same group as dae configuration text
+	// optional: build the pool with the production NewDialerSetFromLinks from subscription tag -> links
+	// (Pool is ignored then)
+	FromLinks bool        `json:"from_links,omitempty"`
+	Tagged    []c14Tagged `json:"tagged,omitempty"`
+}
+
+type c14Tagged struct {
+	Tag   string   `json:"tag"`
+	Links []string `json:"links"`
 }
 
 type c14Re struct {
@@ -79,6 +88,10 @@ type c14Result struct {
 	Dur     map[string]*int64 `json:"dur"`
 	Fixed   *c14Fixed         `json:"fixed,omitempty"` // fixed policy on a built group: DialerGroup.Select
 	Text    string            `json:"text,omitempty"` // "", "same", "differs: ...", "error: ..."
+	// from_links: the pool NewDialerSetFromLinks built, (tag, name) in s.dialers order, and the link oracle
+	// (link -> name the link parses to, null when dialer.NewFromLink rejects it)
+	ImplPool [][2]string        `json:"impl_pool,omitempty"`
+	Links    map[string]*string `json:"links,omitempty"`
 	Panic   string            `json:"panic,omitempty"`
 }
 
@@ -172,18 +185,54 @@ func c14Run(c *c14Case) (res c14Result) {
 			res.Panic = fmt.Sprint(r)
 		}
 	}()
-	option := &dialer.GlobalOption{Log: c14Log, CheckInterval: 30 * time.Second}
-	set := &DialerSet{log: c14Log, dialers: make([]*dialer.Dialer, 0), nodeToTagMap: make(map[*dialer.Dialer]string)}
+	option := &dialer.GlobalOption{Log: c14Log, CheckInterval: 30 * time.Second,
+		TcpCheckOptionRaw: dialer.TcpCheckOptionRaw{Raw: []string{"http://cp.cloudflare.com"}},
+		CheckDnsOptionRaw: dialer.CheckDnsOptionRaw{Raw: []string{"dns.google:53"}}}
+	var set *DialerSet
 	index := map[*dialer.Dialer]int{}
 	var subjects []string
-	for i, n := range c.Pool {
-		name, tag := c14Unhex(n.Name), c14Unhex(n.Tag)
-		d := dialer.NewDialer(c14NoopDialer{}, option, dialer.InstanceOption{DisableCheck: true},
-			&dialer.Property{Property: D.Property{Name: name}, SubscriptionTag: tag})
-		set.dialers = append(set.dialers, d)
-		set.nodeToTagMap[d] = tag
-		index[d] = i
-		subjects = append(subjects, name, tag)
+	if c.FromLinks {
+		// the production constructor, on a fresh Go map (iteration order is the runtime's choice)
+		m := make(map[string][]string, len(c.Tagged))
+		res.Links = map[string]*string{}
+		for _, e := range c.Tagged {
+			tag := c14Unhex(e.Tag)
+			var links []string
+			for _, l := range e.Links {
+				link := c14Unhex(l)
+				links = append(links, link)
+				if _, ok := res.Links[l]; !ok {
+					d, err := dialer.NewFromLink(option, dialer.InstanceOption{DisableCheck: true}, link, "")
+					if err != nil {
+						res.Links[l] = nil
+					} else {
+						nm := hex.EncodeToString([]byte(d.Property().Name))
+						res.Links[l] = &nm
+						subjects = append(subjects, d.Property().Name)
+						_ = d.Close()
+					}
+				}
+			}
+			m[tag] = links
+			subjects = append(subjects, tag)
+		}
+		set = NewDialerSetFromLinks(option, m)
+		res.ImplPool = make([][2]string, 0, len(set.dialers))
+		for i, d := range set.dialers {
+			index[d] = i
+			res.ImplPool = append(res.ImplPool, [2]string{hex.EncodeToString([]byte(set.nodeToTagMap[d])), hex.EncodeToString([]byte(d.Property().Name))})
+		}
+	} else {
+		set = &DialerSet{log: c14Log, dialers: make([]*dialer.Dialer, 0), nodeToTagMap: make(map[*dialer.Dialer]string)}
+		for i, n := range c.Pool {
+			name, tag := c14Unhex(n.Name), c14Unhex(n.Tag)
+			d := dialer.NewDialer(c14NoopDialer{}, option, dialer.InstanceOption{DisableCheck: true},
+				&dialer.Property{Property: D.Property{Name: name}, SubscriptionTag: tag})
+			set.dialers = append(set.dialers, d)
+			set.nodeToTagMap[d] = tag
+			index[d] = i
+			subjects = append(subjects, name, tag)
+		}
 	}
 	defer func() { _ = set.Close() }()
 
